@@ -41,6 +41,12 @@ CHECKS.update({
  "C12": ("3/C12", "Full product per family on a real instance: single queries x all 101 jitter values x sighting ages 999/1000/1001/5000 ms; all 2-query (thorough: 3-query) schedules over the gap grid around 0/20/120/500/1000/1120/1200 ms x jitter per draw; TC trains of 1-4 packets x continuation gaps around 400/500 ms incl. the timer instant x 1/2 sources; per-record timing envelope on the trace.",
          "Trusted: the envelope definitions in the evidence assumptions; one open known finding (duplicate guard hides a sighting) is reported as KNOWN-FINDING."),
 })
+CHECKS.update({
+ "C13": ("3/C13", "Full product per family on real instances: browser start-up queries x caches of 0..300 pointer records in TTL classes at/around half TTL, expired-unpurged and floored x forced types; a second asker (own browser or question heard as responder) at gaps 0/1/500/998/999/1000/1001/5000 ms x known-answer relation x question type; service-info lookups x 27 cache states x 4 timeouts x forced types x jitter; oracle on decoded query datagrams (questions, QU bits, known answers with remaining TTL, TC bits, spacing).",
+         "Trusted: the in-check model of which cached records have more than half their TTL left; remaining TTL compared with one second tolerance."),
+ "C18": ("3/C18", "Full product grid: 256 cache states (SRV/TXT/A/AAAA in absent/fresh/stale/expired-unpurged) x 3 timeouts x arrival instant of each missing record (never, 50, 250, timeout-1, timeout, timeout+1 ms) x forced type on a real AsyncServiceInfo.async_request; return time, success iff SRV and an unexpired address were known in time, field provenance (expired copies carry different rdata), query trace.",
+         "Trusted: missing records arrive one per datagram; equality with the deadline accepts both results; cache-flush grace second as in C06."),
+})
 NOT_YET = {}
 
 def main():
